@@ -39,6 +39,32 @@ Ltac acases :=
   try reflexivity; intros; try discriminate; try reflexivity.
 
 (* ====================================================================== Part 0: small facts *)
+(* The judge's record of a connection THE PROXY DIALLED carries the listen entry with SpecProxy.dial_mark added;
+   a record below the mark is one of an ACCEPTED connection: the input is read with that listen entry and is
+   not "dialled" (used by all the *_bridge_tcp files) *)
+Lemma unmark_small li : (li < dial_mark)%nat -> unmark li = li.
+Proof. intros H. unfold unmark. apply Nat.leb_gt in H. rewrite H. reflexivity. Qed.
+Lemma unmark_marked li : unmark (li + dial_mark) = li.
+Proof.
+  unfold unmark. assert (E : Nat.leb dial_mark (li + dial_mark) = true) by (apply Nat.leb_le; apply Nat.le_add_l).
+  rewrite E. apply Nat.add_sub.
+Qed.
+Lemma conn_dialled_accepted st cid li ip port :
+  find (fun y => Nat.eqb (fst y) cid) (js_conns st) = Some (cid, (li, ip, port)) -> (li < dial_mark)%nat ->
+  conn_dialled st cid = false.
+Proof. intros H M. unfold conn_dialled. rewrite H. apply Nat.leb_gt. exact M. Qed.
+Lemma j_input_accepted st cid li ip port data :
+  find (fun y => Nat.eqb (fst y) cid) (js_conns st) = Some (cid, (li, ip, port)) -> (li < dial_mark)%nat ->
+  j_input st (EvTcpData cid data) =
+  Some {| ji_li := li; ji_tcp := true; ji_conn := cid; ji_src := ip; ji_sport := port; ji_data := data |}.
+Proof. intros H M. unfold j_input. rewrite H, (unmark_small li M). reflexivity. Qed.
+Lemma ji_dialled_accepted st cid li ip port data :
+  find (fun y => Nat.eqb (fst y) cid) (js_conns st) = Some (cid, (li, ip, port)) -> (li < dial_mark)%nat ->
+  ji_dialled st {| ji_li := li; ji_tcp := true; ji_conn := cid; ji_src := ip; ji_sport := port; ji_data := data |} = false.
+Proof. intros H M. unfold ji_dialled. cbn [ji_tcp ji_conn andb]. exact (conn_dialled_accepted st cid li ip port H M). Qed.
+Lemma zero_below_mark : (0 < dial_mark)%nat.
+Proof. apply Nat.ltb_lt. reflexivity. Qed.
+
 Lemma cb_in_firstn {A} (x : A) n l : In x (firstn n l) -> In x l.
 Proof. intros H. rewrite <- (firstn_skipn n l). apply in_or_app. left. exact H. Qed.
 Lemma cb_in_skipn {A} (x : A) n l : In x (skipn n l) -> In x l.
